@@ -556,6 +556,9 @@ pub mod log {
 #[cfg(feature = "public_auditing")]
 pub mod local_auditing;
 
+#[cfg(akd_verif)]
+pub mod verif_hooks;
+
 pub use akd_core::{
     configuration, configuration::*, ecvrf, hash, hash::Digest, proto, types::*, verify,
     verify::history::HistoryParams, ARITY,
